@@ -349,8 +349,9 @@ func (qp Qphred) Encode(e Encoding) (q byte) {
 		}
 		return q
 	case Solexa:
-		q = byte(qp.Qsolexa())
-		if q <= 62 {
+		qs := qp.Qsolexa()
+		q = byte(qs)
+		if qs <= 62 {
 			q += 64
 		}
 	case None:
